@@ -14,7 +14,7 @@ claim('C16', 'bounded symbolic execution of the real split_lines (SX engine, z3 
       BASE_NOTE, 'DESIGN.md section 4, C16')
 
 claim('C11', 'bounded symbolic execution of the real _read_header + regex-inclusion query against the spec grammar (NFA formula), z3',
-      'The real DiffXReader._read_header runs on "#<id>:" + a fully symbolic option tail (0..7 bytes quick / 0..9 '
+      'The real DiffXReader._read_header runs on "#<id>:" + a fully symbolic option tail (0..7 bytes quick / 0..8 '
       'thorough, all 256 byte values, LF and CRLF files), on fully symbolic whole lines, and through the public '
       'iterator; on every feasible path z3 decides acceptance <=> membership in the specification grammar, the '
       'exception type, and that the reported options equal an independent split (integers converted). Headers of '
